@@ -1,4 +1,6 @@
 import Ptn.C16.Model
+import Ptn.C16.TtndoModel
+import Ptn.C04.Driver
 /-! Line-protocol handler for C16 (core Lean only).  Identifiers travel hex-encoded (bytes of the
 Python string; `-` is the empty identifier), so that the model works on the real strings.
 
@@ -6,6 +8,11 @@ Python string; `-` is the empty identifier), so that the model works on the real
                                             in dict order `<id>^<parent|->:<kid>,<kid>…`, or `error`
   order <suffix> <id> <id> …              → `ttndo_contraction_order`: identifiers ending with the suffix
                                             (`-` when there is none)
+  trace <root> <i>:<kids>;- …             → `trace_ttndo` on the TTNDO of the state tree (identifiers = numbers;
+                                            TTNDO ids: root 0, ket copy 2i+1, bra copy 2i+2; the legs of the
+                                            bra copy / operator tensor of ket node k are named gB<k>_<n> gBP<k> / gO<k>_<n> gOO<k> gOI<k>):
+                                            `legs … | binds …` in the leg tokens of C04 (root legs BK0 BB0 BO0)
+  ttno <root> <i>:<kids>;<operator kids> … → `ttndo_ttno_expectation_value` with a TTNO on the same tree
 -/
 namespace Ptn.C16
 
@@ -79,6 +86,16 @@ def handle (args : List String) : String :=
       let o := contractionOrder sfx l
       if o.isEmpty then "-" else " ".intercalate (o.map hex)
     | _, _ => "bad-op"
+  | "trace" :: root :: entries =>
+    match Ptn.C04.parseTreeCase root entries with
+    | some (t, _) => Ptn.C04.showT (Ttndo.traceTtndo (Ttndo.ttndoNetK (Ttndo.ketTree t)))
+    | none => "bad-op"
+  | "ttno" :: root :: entries =>
+    match Ptn.C04.parseTreeCase root entries with
+    | some (t, other) =>
+      Ptn.C04.showT (Ttndo.ttndoTtnoExpectationValue (Ttndo.ttndoNetK (Ttndo.ketTree t))
+        (Ttndo.ttnoNetK (Ttndo.ketTree t) (fun k => (other (Ttndo.revKet k)).map Ttndo.ketOf)))
+    | none => "bad-op"
   | _ => "bad-op"
 
 end Ptn.C16
